@@ -35,6 +35,8 @@ def run_check(pid, tier, seed, replay=None):
     pid = pid.upper()
     mod = importlib.import_module(f"vk.mon.{pid.lower()}")
     META = mod.META
+    if not replay:
+        shutil.rmtree(os.path.join(env.VERIF, "replays", pid), ignore_errors=True)  # replays of earlier runs are stale
     work = os.path.join(env.VERIF, ".work", f"drv{os.getpid()}")
     os.makedirs(work, exist_ok=True)
     nshards = 1 if replay else META.get("nshards", {}).get(tier, NPROC)
